@@ -73,7 +73,7 @@ def run(res, a):
     # (2) whole-API workloads, repeated
     reps_n = 6 if thorough else 4
     rep_summary = {}
-    for config in (0, 1, 2):
+    for config in (0, 1, 2, 3, 4):
         ok, rc, out, err = oslib.run_harness(exe, ["W", a.seed, config, reps_n, 0])
         if not ok:
             res.violation("harness-crash", "t_osfree W config=%d exited with %d: %s" % (config, rc, err[-600:]),
@@ -124,7 +124,7 @@ def run(res, a):
     res.cov["disagreements_checked"] = len(mism)
     res.cov["input_distribution"] = {"roundtrips": {"%s/%s/%s" % (["os_alloc", "os_alloc_aligned", "os_alloc_aligned_at_offset"][k[0]], k[1], k[2]): v for k, v in rc_count.items()},
                                      "repetitions": rep_summary,
-                                     "configs": "0: arenas enabled (1GiB reserve), 1: mi_option_disallow_arena_alloc, 2: arena_reserve=32MiB; x %d repetitions" % reps_n}
+                                     "configs": "0: arenas enabled (1GiB reserve), 1: mi_option_disallow_arena_alloc, 2: arena_reserve=32MiB, 3: arena_eager_commit=0, 4: arena_eager_commit=0 + eager_commit=0; x %d repetitions" % reps_n}
     res.cov["models_used"] = ["Model/Os.v", "Model/Purge.v"]
     res.add_samples([F[0][:500], F[len(F) // 2][:500]] + [l for l in T if l.startswith("T rep")][:3])
     res.assumptions += ["resident-set size is kernel behaviour: the ledger of harness/shim.c follows mmap/munmap/mprotect/madvise (committed = read-write and not "
